@@ -284,3 +284,36 @@ def exh_family(r=None, limit=None):
     if limit is not None and r is not None and len(out) > limit:
         out = r.sample(out, limit)
     return out
+
+
+
+def rep_body_family():
+    """every repetition whose body starts / ends with each kind of token (separator, tree wildcard with or without its
+    separator, zero-or-more wildcard, literal, branch) x bounds x neighbours: the rules about what repeating a body
+    makes adjacent"""
+    starts = ["/", "**/", "/**/", "*", "a", "{a,b}", "{/a,b}", "$"]
+    ends = ["/", "/**", "/**/", "*", "a", "{a,b}", "{a/,b}", "$"]
+    mids = ["a", "b/c"]
+    bounds = [":1,", ":2", ":0,", ":1", ":0,1", ":2,3", ""]
+    around = [("", ""), ("x", ""), ("", "y"), ("x/", ""), ("", "/y"), ("x", "y"), ("{x,", "}"), ("**/", ""), ("", "/**")]
+    out = []
+    for s0 in starts:
+        for e0 in ends:
+            for mid in mids[:1] if (s0, e0) != ("/", "/") else mids:
+                body = s0 + mid + e0
+                for b in bounds:
+                    for pre, post in around:
+                        out.append("%s<%s%s>%s" % (pre, body, b, post))
+    return list(dict.fromkeys(out))
+
+
+def nested_tree_edge_family():
+    """a tree wildcard at the edge of a branch NESTED in another branch, at every position of the outer branch in its
+    concatenation: the encoder picks the form of a tree wildcard from the positions handed down"""
+    inner = ["</**/a:1,2>", "<a/**:1,2>", "{/**/a}", "{a/**}", "<**/a:1>", "<a/**/:1,2>", "</**/a:1>", "{**/a,b}", "{a/**,b}", "<**/a:2>", "/**/a", "a/**", "**/a"]
+    outer = ["x{%s,c}", "{%s,c}x", "x{%s,c}y", "{%s,c}", "x<%sb:1,2>", "<%sb:1,2>y", "x<%s:1,2>y", "{q%s,c}", "x{{%s},c}", "x<<%s:1>:1,2>", "{x,%s}/y", "y/{%s,x}", "x{c,%s}"]
+    out = []
+    for o in outer:
+        for i in inner:
+            out.append(o % i)
+    return list(dict.fromkeys(out))
